@@ -117,8 +117,11 @@ def run_property(prop_id, tier="quick", seed=0, only=None, jobs=None, keep_going
         else:
             final_viol.append(v)
     # listed findings that did NOT show up are simply not printed (they may have been fixed)
+    printed = set()
     for k in verdict["known"]:
-        print("KNOWN-FINDING: property=%s %s" % (prop_id, k["finding"]["what"]))
+        if id(k["finding"]) not in printed:
+            printed.add(id(k["finding"]))
+            print("KNOWN-FINDING: property=%s %s" % (prop_id, k["finding"]["what"]))
     replay_dir = os.path.join(ROOT, "replay")
     if final_viol:
         os.makedirs(replay_dir, exist_ok=True)
